@@ -14,6 +14,7 @@ pub mod c15;
 pub mod c16;
 pub mod c17;
 pub mod c25;
+pub mod c26;
 pub mod c36;
 
 pub fn run(ctx: &Ctx, id: &str) -> bool {
@@ -32,6 +33,7 @@ pub fn run(ctx: &Ctx, id: &str) -> bool {
         "C16" => c16::run(ctx),
         "C17" => c17::run(ctx),
         "C25" => c25::run(ctx),
+        "C26" => c26::run(ctx),
         "C36" => c36::run(ctx),
         _ => return false,
     }
